@@ -141,8 +141,12 @@ class Env:
             return self.U.UnitValue(float(Fraction(node["x"]["v"])), self.units((s["space"], s["time"], s["quantity"]), u["dim"]))
         u = node["xs"]["u"]
         s = u["sys"]
-        return self.U.UnitArray([float(Fraction(v)) for v in node["xs"]["vs"]],
-                                self.units((s["space"], s["time"], s["quantity"]), u["dim"]))
+        vals = [float(Fraction(v)) for v in node["xs"]["vs"]]
+        if node["xs"].get("dtype"):
+            # operand built from an ndarray of another dtype (values exactly representable in it): the quantity is the same
+            dt = node["xs"]["dtype"]
+            vals = self.np.array([int(Fraction(v)) for v in node["xs"]["vs"]] if dt[0] in "iu" else vals, dtype=dt)
+        return self.U.UnitArray(vals, self.units((s["space"], s["time"], s["quantity"]), u["dim"]))
 
     def kind(self, x):
         if type(x) is self.U.UnitValue:
@@ -1003,6 +1007,75 @@ def table_cases(rng, E):
 
 
 # ------------------------------------------------------------------------------------------------
+# operands built from ndarrays of other dtypes (float32 / int32 / int64 / uint8), values exactly representable in the
+# dtype: the quantity is the same, so exact SI arithmetic is still the expected result
+# ------------------------------------------------------------------------------------------------
+DTYPES = ["float32", "int32", "int64", "uint8"]
+
+
+def dtype_values(rng, dt, n):
+    if dt == "uint8":
+        return [Fraction(rng.randint(1, 250)) for _ in range(n)]
+    if dt == "int32":
+        return [Fraction(rng.choice([1, -1]) * rng.randint(30000, 2 * 10 ** 9)) for _ in range(n)]
+    if dt == "int64":
+        return [Fraction(rng.choice([1, -1]) * rng.randint(2 ** 31, 2 ** 52)) for _ in range(n)]
+    # float32: 24-bit mantissa times a power of two
+    return [Fraction(rng.choice([1, -1]) * rng.randint(2 ** 22, 2 ** 24 - 1)) * Fraction(2) ** rng.randint(-30, 10) for _ in range(n)]
+
+
+def dtype_leaf(rng, dt, n, sys, dim):
+    return {"k": "leaf", "t": "arr", "xs": {"vs": [rstr(v) for v in dtype_values(rng, dt, n)], "u": unitsj(sys, dim), "dtype": dt}}
+
+
+def dtype_cases(rng, reps):
+    out = []
+    for dt in DTYPES:
+        for rep in range(reps):
+            for op in ("mul", "div", "add", "sub", "mod"):
+                n = rng.randint(1, 4)
+                U = rand_sys(rng)
+                V = U if rng.random() < 0.4 else rand_sys(rng)
+                d = rand_dim(rng)
+                a = dtype_leaf(rng, dt, n, U, d)
+                first = abs(Fraction(a["xs"]["vs"][0]))
+                si_first = first * si_factor(U, d)
+                # plain numbers: Python ints (weak scalars keep a small dtype) and floats, sizes that overflow / round in the dtype
+                if op in ("mul", "div"):
+                    nums = [("int", Fraction(rng.choice([2, 3, 7, 100000, 1000003, -5]))), ("float", Fraction(rng.choice([0.1, 3.0, 1e5 + 0.5, -2.5])))]
+                else:
+                    nums = [("int", Fraction(int(first * rng.choice([2, 3, 5])) + rng.choice([1, 3]))),
+                            ("float", Fraction(float(first * Fraction(rng.choice([3, 7, 11]), 2) + Fraction(1, 3))))]
+                for py, q in nums:
+                    b = {"k": "leaf", "t": "num", "v": rstr(q), "py": py}
+                    out.append({"e": {"k": "bin", "op": op, "a": a, "b": b}})
+                    out.append({"e": {"k": "bin", "op": op, "a": b, "b": a}})
+                # a scalar quantity and arrays (same dtype, another dtype, float64) on either side
+                d2 = d if op in ADDITIVE else rand_dim(rng)
+                tgt = si_first * Fraction(rng.choice([5, 7, 9]), 2) if op in ADDITIVE else None
+                v = qty_leaf(rng, "val", d2, 1, si_target=tgt, sys=V)
+                out.append({"e": {"k": "bin", "op": op, "a": a, "b": v}})
+                out.append({"e": {"k": "bin", "op": op, "a": v, "b": a}})
+                for dt2 in (dt, rng.choice(DTYPES), None):
+                    if dt2 is None:
+                        b = qty_leaf(rng, "arr", d2, n, si_target=tgt, sys=V)
+                    else:
+                        b = dtype_leaf(rng, dt2, n, U if dt2 == dt else V, d2)
+                    if op == "mod" and dt2 is not None:
+                        continue        # quotients of unrelated magnitudes: covered by the scalar / float64 forms
+                    out.append({"e": {"k": "bin", "op": op, "a": a, "b": b}})
+                    out.append({"e": {"k": "bin", "op": op, "a": b, "b": a}})
+            for op in ("neg", "abs", "inv"):
+                out.append({"e": {"k": op, "a": dtype_leaf(rng, dt, rng.randint(1, 4), rand_sys(rng), rand_dim(rng))}})
+            # a conversion in between: (a in U) + (a' in V) forces convert() on the small-dtype array
+            U, V, d = rand_sys(rng), rand_sys(rng), rand_dim(rng)
+            a = dtype_leaf(rng, dt, 2, U, d)
+            si0 = abs(Fraction(a["xs"]["vs"][0])) * si_factor(U, d)
+            out.append({"e": {"k": "bin", "op": "add", "a": qty_leaf(rng, "val", d, 1, si_target=si0 * 3, sys=V), "b": a}})
+    return out
+
+
+# ------------------------------------------------------------------------------------------------
 # streams in ONE process: blocks of consecutive cases (`multi`) and sequences over a pool of live, re-used operands (`seq`)
 # ------------------------------------------------------------------------------------------------
 def run_multi(E, case):
@@ -1442,6 +1515,8 @@ def run(ctx):
                      "rounds the real power function, which has both properties; the check compares ** values to 1e-9 on every case.")
     ctx.notes.append("the reflected methods are also called directly with a quantity argument (b.__rsub__(a) etc., never done by Python's "
                      "dispatch): model (rdunder applied literally) and oracle.")
+    ctx.notes.append("operands built from float32 / int32 / int64 / uint8 ndarrays (values exactly representable in the dtype) denote the "
+                     "same quantities: the oracle is exact arithmetic on their SI values as for any other operand (dtype stream).")
     ctx.notes.append("UnitArray ** n raises NotImplementedError always (documented); the statement's ** is on scalar quantities.")
     ctx.notes.append("PURITY clause tested by every stream (a consequence of the statement: the result depends only on the operands' SI "
                      "values and dimensions): an operator must not modify its operands or earlier results, its result is a new object "
@@ -1455,6 +1530,8 @@ def run(ctx):
     process(ctx, E, seq_cases(rng, ctx.n(400, 8000)), "sequences")
     # 1. exhaustive table
     process(ctx, E, table_cases(rng, E), "table_cases")
+    # 1b. operands built from ndarrays of dtype float32 / int32 / int64 / uint8
+    process(ctx, E, dtype_cases(rng, ctx.n(2, 20)), "dtype_cases")
     # 2. random trees
     n = ctx.n(3000, 60000)
     g = Gen(rng, E, 3 if ctx.tier == "quick" else 4)
